@@ -201,7 +201,7 @@ class FnTaint:
             return "field " + self._field_name(op[1])
         return None
 
-    def sanitised(self, op, bb, strict=False, asserts=True, zero_test=False):
+    def sanitised(self, op, bb, strict=False, asserts=True, zero_test=False, lower_ok=True):
         """generous: any dominating ordered comparison on the value / an ancestor / a sibling copy, or a sanitising call in its derivation.
         strict=True: "related value" means sharing an *integer-typed* ancestor (not merely the same struct reference / iterator)"""
         f = self.fn
@@ -270,6 +270,8 @@ class FnTaint:
                     if kind == "assign":
                         rv = payload[2]
                         if rv[0] == "bin" and rv[1] in ORDERED:
+                            if not lower_ok and any(mirg.op_int(o_) in (0, 1) for o_ in (rv[2], rv[3])):
+                                continue          # `x > 0` / `x >= 1`: a lower bound says nothing about how large x is
                             for o2 in (rv[2], rv[3]):
                                 ol = op_local(o2)
                                 if ol is None:
@@ -320,6 +322,126 @@ class FnTaint:
         return None
 
 
+
+    # ---- ordering evidence for a subtraction -------------------------------------------------------------------------------
+    def _aliases(self, op):
+        """the operand and everything it is a value-preserving view of: copies, casts, borrows / reborrows, field reloads of the
+        same place and `len()`/`as_ref()`-style views — no arithmetic.  Returns (locals, field places)"""
+        if self.cfg is None:
+            self.cfg = mirg.Cfg(self.fn)
+            self.du = mirg.DefUse(self.fn)
+        locs, flds = set(), set()
+        l0 = op_local(op)
+        if l0 is None:
+            return locs, flds
+        if op[0] in ("c", "m") and pproj(op[1]):
+            flds.add((plocal(op[1]), tuple(p for p in pproj(op[1]) if isinstance(p, int))))
+            return locs, flds      # a field place is itself; its base local is not an alias of the field's value
+        stack = [l0]
+        while stack:
+            x = stack.pop()
+            if x in locs:
+                continue
+            locs.add(x)
+            for _b, k_, p_ in self.du.defs.get(x, []):
+                if k_ == "assign":
+                    rv = p_[2]
+                    if rv[0] in ("use", "cast", "ref", "refmut", "rawptr") or (rv[0] == "un" and rv[1] == "PtrMetadata"):
+                        for o in mirg.rvalue_operands(rv):
+                            if o[0] in ("c", "m"):
+                                ints = tuple(q for q in pproj(o[1]) if isinstance(q, int))
+                                if ints:
+                                    flds.add((plocal(o[1]), ints))
+                                else:
+                                    stack.append(plocal(o[1]))
+                else:
+                    cn = ncallee(p_) or ""
+                    if re.search(r"(::len$|::as_ref$|::as_slice$|::deref$|::as_mut$|::borrow$|::clone$|::into$|::from$|::unwrap$|::get_ref$|::as_mut_slice$|::try_into$|::try_from$)", cn) and p_["a"]:
+                        o = p_["a"][0]
+                        if o[0] in ("c", "m"):
+                            ints = tuple(q for q in pproj(o[1]) if isinstance(q, int))
+                            if ints:
+                                flds.add((plocal(o[1]), ints))
+                            else:
+                                stack.append(plocal(o[1]))
+        return locs, flds
+
+    def _mentions(self, op, locs, flds, depth=8):
+        """does the derivation of `op` (arithmetic allowed) read one of the locals / field places?"""
+        l = op_local(op)
+        if l is None:
+            return False
+        if op[0] in ("c", "m") and pproj(op[1]):
+            if (plocal(op[1]), tuple(p for p in pproj(op[1]) if isinstance(p, int))) in flds:
+                return True
+        anc, calls, _ = self.du.slice_back(l, depth=depth)
+        if anc & locs:
+            return True
+        for a in anc:
+            for _b, k_, p_ in self.du.defs.get(a, []):
+                ops = mirg.rvalue_operands(p_[2]) if k_ == "assign" else p_["a"]
+                for o in ops:
+                    if o[0] in ("c", "m") and pproj(o[1]) and (plocal(o[1]), tuple(q for q in pproj(o[1]) if isinstance(q, int))) in flds:
+                        return True
+        return False
+
+    def ordered_before(self, a_op, b_op, bb):
+        """evidence that the two operands of `a - b` were compared *with each other* on every path to bb: a dominating ordered
+        comparison (or a checking call) whose one side derives from a and whose other side derives from b"""
+        if self.cfg is None:
+            self.cfg = mirg.Cfg(self.fn)
+            self.du = mirg.DefUse(self.fn)
+        f = self.fn
+        la, fa = self._aliases(a_op)
+        lb, fb = self._aliases(b_op)
+        # a = b + x (unsigned): the difference cannot underflow
+        for x in la:
+            for _b, k_, p_ in self.du.defs.get(x, []):
+                if k_ == "assign" and p_[2][0] == "bin" and p_[2][1] in ("Add", "AddWithOverflow", "AddUnchecked"):
+                    for o in (p_[2][2], p_[2][3]):
+                        lo, fo = self._aliases(o)
+                        if (lo & lb) or (fo & fb):
+                            return "minuend is the subtrahend plus a value"
+                if k_ == "assign" and p_[2][0] == "use" and p_[2][1][0] in ("c", "m") and pproj(p_[2][1][1]) == [0]:
+                    # (x, overflow) = AddWithOverflow(..): the sum is field 0 of the pair
+                    for _b2, k2, p2 in self.du.defs.get(plocal(p_[2][1][1]), []):
+                        if k2 == "assign" and p2[2][0] == "bin" and p2[2][1] == "AddWithOverflow":
+                            for o in (p2[2][2], p2[2][3]):
+                                lo, fo = self._aliases(o)
+                                if (lo & lb) or (fo & fb):
+                                    return "minuend is the subtrahend plus a value"
+        for i, b in enumerate(f.mir["blocks"]):
+            t = b["t"]
+            if t["k"] != "switch" or i == bb or not self.cfg.dominates(i, bb):
+                continue
+            dl = op_local(t["d"])
+            stack, seen = [dl], set()
+            while stack:
+                x = stack.pop()
+                if x is None or x in seen:
+                    continue
+                seen.add(x)
+                for _bb, kind, payload in self.du.defs.get(x, []):
+                    if kind == "assign":
+                        rv = payload[2]
+                        if rv[0] == "bin" and rv[1] in ORDERED | {"Eq", "Ne"}:
+                            l_, r_ = rv[2], rv[3]
+                            if (self._mentions(l_, la, fa) and self._mentions(r_, lb, fb)) or (self._mentions(l_, lb, fb) and self._mentions(r_, la, fa)):
+                                return "operands compared with each other (bb%d)" % i
+                        elif rv[0] in ("un", "use"):
+                            for o2 in mirg.rvalue_operands(rv):
+                                stack.append(op_local(o2))
+                    else:
+                        cn_ = ncallee(payload) or ""
+                        args = payload["a"]
+                        if CHECK_CALL.search(cn_) and len(args) >= 2:
+                            if (self._mentions(args[0], la, fa) and self._mentions(args[1], lb, fb)) or (self._mentions(args[0], lb, fb) and self._mentions(args[1], la, fa)):
+                                return "operands compared with each other by %s (bb%d)" % (cn_.split("::")[-1], i)
+                        for a_ in args:
+                            stack.append(op_local(a_))
+        return None
+
+
 def _return_sanitised(ft, f):
     """a validating helper (`fn checked_count(n) -> Result<usize> { if n > limit { return Err } Ok(n) }`): the returned value is
     input-derived, but every return is dominated by an ordered comparison / check on it (the same generous sanitiser sinks use),
@@ -335,13 +457,15 @@ def _return_sanitised(ft, f):
             continue
         for st in b["s"]:
             if st[0] == "=" and plocal(st[1]) == 0:
+                if st[2][0] == "agg" and isinstance(st[2][1], list) and st[2][1][0] == "adt" and st[2][1][2] in ("Err", "None"):
+                    continue          # an error being returned is not the validated integer
                 for o in mirg.rvalue_operands(st[2]):
                     if ft.operand_tainted(o):
                         n += 1
                         if not ft.sanitised(o, i, asserts=False):
                             return False
         t = b["t"]
-        if t["k"] == "call" and plocal(t["d"]) == 0:
+        if t["k"] == "call" and plocal(t["d"]) == 0 and not (ncallee(t) or "").endswith("::from_residual"):
             for o in t["a"]:
                 if ft.operand_tainted(o):
                     n += 1
@@ -424,7 +548,13 @@ def solve(world, max_rounds=12):
                         bbi = blocks.index(b)
                         for i, a in enumerate(t["a"]):
                             if ft.operand_tainted(a) and (i + 1) not in world.param_taint[c]:
-                                if ft.sanitised(a, bbi):
+                                al_ = op_local(a)
+                                if al_ is not None and not pproj(a[1]) and adt_of_type(world.ty(f, al_)) in world.adt_fields:
+                                    # a (reference to a) struct whose fields are tracked one by one (field_taint): the callee's
+                                    # reads of its input-filled fields are tainted through those, not through the whole value
+                                    continue
+                                # (strict: a check on some other part of `self` says nothing about this argument)
+                                if ft.sanitised(a, bbi, strict=True, lower_ok=False):
                                     continue
                                 world.param_taint[c].add(i + 1)
                                 changed = True
